@@ -412,11 +412,11 @@ theorem cursor_step (X : Ctx) (s : Sys) (hi : Inv X s) (hc : CursorAs s.t s.v.cu
 /-! ### the cursor through size changes -/
 
 /-- Either the terminal shows the cursor as last rendered, or — after a size change, when the
-    terminal may have moved it — a refresh of a non-empty screen is pending and the cursor's
-    *visibility* is still as last rendered. -/
+    terminal may have moved it — a refresh is pending and the cursor's *visibility* is still as last
+    rendered. -/
 def CurInv (s : Sys) : Prop :=
   CursorAs s.t s.v.cursorLast ∨
-  (s.v.refresh = true ∧ 1 ≤ s.v.scr.cols ∧ 1 ≤ s.v.scr.rows ∧ (s.v.cursorLast.visible = false → s.t.cursorVisible = false))
+  (s.v.refresh = true ∧ (s.v.cursorLast.visible = false → s.t.cursorVisible = false))
 
 theorem cursorAs_hidden (t : Term) (c : CursorState) (h : CursorAs t c) (hv : c.visible = false) : t.cursorVisible = false := by
   simpa [CursorAs, hv] using h
@@ -459,25 +459,39 @@ theorem render_cursor_fresh (X : Ctx) (s : Sys) (hi : Inv X s) (hcur : CursorIn 
             · rw [VaxisModel.Lemmas.RenderClip.clipCell_sixel]; rfl
   · exact hvis
 
-/-- **The cursor clause through every step**, size changes included (to a non-empty screen). -/
-theorem cursor_step_all (X : Ctx) (s : Sys) (hi : Inv X s) (hc : CurInv s) (op : SysOp) (hok : OpOk X s op)
-    (hsz : ∀ cols rows g, op = .resize cols rows g → sameSize s.v cols rows = false → 1 ≤ cols ∧ 1 ≤ rows) :
+/-- On an empty screen (no columns or no rows) a visible cursor cannot be inside the screen, so the
+    application's obligation `CursorIn` means "hidden"; the frame leaves the cursor hidden. -/
+theorem render_cursor_empty (X : Ctx) (s : Sys) (hi : Inv X s) (hcur : CursorIn s.v)
+    (hemp : s.v.scr.cols < 1 ∨ s.v.scr.rows < 1) (hvis : s.v.cursorLast.visible = false → s.t.cursorVisible = false) :
+    CursorAs (run X.cw s.t (doRender X.cw X.caps X.I s.v).2) (doRender X.cw X.caps X.I s.v).1.cursorLast := by
+  have hv : s.v.cursorNext.visible = false := by
+    by_cases h : s.v.cursorNext.visible = true
+    · have := hcur h; omega
+    · simpa using h
+  rw [doRender_eq]
+  simp only [VaxisModel.Lemmas.RenderClip.renderFrameC_eq]
+  exact VaxisModel.Lemmas.RenderCursor.cursor_hidden X.cw X.cw
+    { frameOf X.caps X.I s.v with next := clipGrid X.cw (frameOf X.caps X.I s.v).next } s.t hv hvis
+
+/-- **The cursor clause through every step**, size changes included — to any size, an empty screen
+    (0 columns or 0 rows) too. -/
+theorem cursor_step_all (X : Ctx) (s : Sys) (hi : Inv X s) (hc : CurInv s) (op : SysOp) (hok : OpOk X s op) :
     CurInv (sysStep X s op) ∧
     (isFrame s op = true → CursorAs (sysStep X s op).t (sysStep X s op).v.cursorLast) := by
   have hrender : ∀ (s : Sys), Inv X s → CurInv s → CursorIn s.v →
       CursorAs (run X.cw s.t (doRender X.cw X.caps X.I s.v).2) (doRender X.cw X.caps X.I s.v).1.cursorLast := by
     intro s hi hc hcur
-    rcases hc with hc | ⟨h1, h2, h3, h4⟩
+    rcases hc with hc | ⟨h1, h4⟩
     · exact render_cursor X s hi hcur hc
-    · exact render_cursor_fresh X s hi hcur h1 h2 h3 h4
+    · by_cases hne : 1 ≤ s.v.scr.cols ∧ 1 ≤ s.v.scr.rows
+      · exact render_cursor_fresh X s hi hcur h1 hne.1 hne.2 h4
+      · exact render_cursor_empty X s hi hcur (by omega) h4
   cases op with
   | draw d =>
     have h1 : (draw X.lib X.rm s.v d).cursorLast = s.v.cursorLast := by cases d <;> rfl
     have h2 : (draw X.lib X.rm s.v d).refresh = s.v.refresh := by cases d <;> rfl
-    have hd := applyPuts_dims (modelWrites X.lib X.rm d) s.v.scr
-    rw [← draw_scr] at hd
-    refine ⟨?_, fun h => by simp [isFrame] at h⟩
-    simp only [CurInv, sysStep, h1, h2, hd.1, hd.2]
+    refine ⟨?_, fun h => absurd h (by simp [isFrame])⟩
+    simp only [CurInv, sysStep, h1, h2]
     exact hc
   | render =>
     have := hrender s hi hc hok
@@ -486,9 +500,9 @@ theorem cursor_step_all (X : Ctx) (s : Sys) (hi : Inv X s) (hc : CurInv s) (op :
     have hi' : Inv X { s with v := { s.v with refresh := true } } :=
       ⟨hi.wf, hi.ready, fun h => absurd h (by simp), hi.cells⟩
     have := hrender { s with v := { s.v with refresh := true } } hi'
-      (by rcases hc with hc | ⟨h1, h2, h3, h4⟩
+      (by rcases hc with hc | ⟨h1, h4⟩
           · exact Or.inl hc
-          · exact Or.inr ⟨rfl, h2, h3, h4⟩) hok
+          · exact Or.inr ⟨rfl, h4⟩) hok
     exact ⟨Or.inl this, fun _ => this⟩
   | resize cols rows g =>
     by_cases hs : sameSize s.v cols rows = true
@@ -496,14 +510,12 @@ theorem cursor_step_all (X : Ctx) (s : Sys) (hi : Inv X s) (hc : CurInv s) (op :
       have := hrender s hi hc hok
       simp only [sysStep, endFrame, hs, if_true, isFrame]
       exact ⟨Or.inl this, fun _ => this⟩
-    · have hs' : sameSize s.v cols rows = false := by simpa using hs
-      obtain ⟨hc1, hr1⟩ := hsz cols rows g rfl hs'
-      simp only [sysStep, endFrame, hs, if_false, isFrame, run, List.foldl_nil]
-      refine ⟨Or.inr ⟨rfl, by simp [Screen.resize]; omega, by simp [Screen.resize]; omega, ?_⟩, fun h => absurd h (by simp)⟩
+    · simp only [sysStep, endFrame, hs, if_false, isFrame, run, List.foldl_nil]
+      refine ⟨Or.inr ⟨rfl, ?_⟩, fun h => absurd h (by simp)⟩
       intro hv
       show (resizedTerm s.t cols rows g).cursorVisible = false
       simp only [resizedTerm]
-      rcases hc with hc | ⟨_, _, _, h4⟩
+      rcases hc with hc | ⟨_, h4⟩
       · exact cursorAs_hidden s.t _ hc hv
       · exact h4 hv
 
